@@ -1138,6 +1138,18 @@ private:
       {
         try { c.listenerReady->set_value(false); } catch (...) {}
       }
+      if (c.t == Cmd::Connect)
+      {
+        // connect() accepted this command (and returned its id to the caller)
+        // after the process() pass above: the id still owes its close callback.
+        decltype(_cbs.onClose) closeCb;
+        { std::lock_guard<std::mutex> g(_cbMutex); closeCb = _cbs.onClose; }
+        if (closeCb)
+        {
+          closeCb(c.c.sid, TransportErrorInfo{TransportError::ShuttingDown,
+                                              "connect: transport shutting down", 0, 0});
+        }
+      }
     }
     if (_epollFd >= 0)
     {
